@@ -109,7 +109,8 @@ zPivotGrowth(int_t ncols, SuperMatrix *A, int_t *perm_c,
 		rpg = SUPERLU_MIN( rpg, maxaj / maxuj );
 	}
 	
-	if ( j >= ncols ) break;
+	/* no early exit: with several threads the supernodes are not numbered in
+	   column order, a later one may still hold columns below ncols */
     }
 
     SUPERLU_FREE(inv_perm_c);
